@@ -18,6 +18,8 @@ pub mod c15;
 pub mod c16;
 pub mod c17;
 pub mod c18;
+pub mod c19;
+pub mod c20;
 
 pub fn all() -> Vec<Box<dyn Property>> {
     vec![
@@ -39,6 +41,8 @@ pub fn all() -> Vec<Box<dyn Property>> {
         Box::new(c16::C16),
         Box::new(c17::C17),
         Box::new(c18::C18),
+        Box::new(c19::C19),
+        Box::new(c20::C20),
     ]
 }
 
